@@ -212,13 +212,24 @@ std::shared_ptr<base::ISampledDimension> DataArrayHDF5::createSampledDimension(n
 
 std::shared_ptr<base::IDataFrameDimension> DataArrayHDF5::createDataFrameDimension(ndsize_t index, const nix::DataFrame &df, unsigned col_index) {
     H5Group g = createDimensionGroup(index);
-    return make_shared<DataFrameDimensionHDF5>(g, index, file(), block(), df, col_index);
+    try {
+        return make_shared<DataFrameDimensionHDF5>(g, index, file(), block(), df, col_index);
+    } catch (...) {
+        // do not leave a half built descriptor behind (frame not in this block, bad column)
+        dimension_group(true)->removeGroup(util::numToStr(index));
+        throw;
+    }
 }
 
 
 std::shared_ptr<base::IDataFrameDimension> DataArrayHDF5::createDataFrameDimension(ndsize_t index, const nix::DataFrame &df) {
     H5Group g = createDimensionGroup(index);
-    return make_shared<DataFrameDimensionHDF5>(g, index, file(), block(), df);
+    try {
+        return make_shared<DataFrameDimensionHDF5>(g, index, file(), block(), df);
+    } catch (...) {
+        dimension_group(true)->removeGroup(util::numToStr(index));
+        throw;
+    }
 }
 
 
